@@ -1,39 +1,50 @@
 #!/bin/bash
-# kgen.sh <scenario> <num> <seed> <outfile> [keep]: TLC simulation of spec/Kernel.tla for one scenario of
-# MC_Kernel.tla -> one JSON document {name, setup, script, t0, delay, schedules:[...]} (appended to outfile).
-# Of the <num> behaviours the <keep> most different ones are kept (greedy, by the 3-grams of their steps).
+# kgen.sh <scenario> <parties> <bound> <seed> <outfile> [max]: ALL preemption-bounded schedules of one scenario of
+# MC_Kernel.tla (TLC, exhaustive, spec KernelGen!GenSpec) for every choice of <parties> of its requests and
+# sweeps -> one JSON document {name, setup, script, t0, delay, schedules:[...]} appended to outfile.
+# Schedules that commit in the same order and take every decision at the same instant are one class
+# (one representative is kept); if there are more than <max> classes a seeded sample is taken.
 V=${VERIF_HOME:-/verif}
-S=$1; N=$2; SEED=$3; OUT=$(cd "$(dirname "$4")" && pwd)/$(basename "$4"); KEEP=${5:-$N}
+S=$1; PARTIES=$2; BOUND=$3; SEED=$4; OUT=$(cd "$(dirname "$5")" && pwd)/$(basename "$5"); MAX=${6:-0}
 D=$(mktemp -d $V/run/kgen.XXXX)
-sed -e 's/^VIEW View//' -e '/^INVARIANTS/,$d' $V/spec/MC_Kernel_$S.cfg > $D/gen.cfg
-printf '  Name = "%s"\n  Setup <- Setup_%s\nINVARIANTS\n  Emit\n' "$S" "$S" | python3 -c "
-import sys
-cfg=open('$D/gen.cfg').read(); add=sys.stdin.read()
-i=cfg.index('CONSTANTS')+len('CONSTANTS\n')
-consts,inv=add.split('INVARIANTS')
-open('$D/gen.cfg','w').write(cfg[:i]+consts+cfg[i:]+'INVARIANTS'+inv)"
-cd $V/spec && timeout 900 java -Xmx4g -Xss512m -Djava.io.tmpdir=$D -cp /opt/veriftools/tla/tla2tools.jar:/opt/veriftools/tla/CommunityModules-deps.jar tlc2.TLC -noGenerateSpecTE -deadlock -workers 1 -simulate num=$N -depth 60 -seed $SEED -metadir $D/md -config $D/gen.cfg KernelGen.tla > $D/out.txt 2>&1
+python3 - $V/spec/MC_Kernel_$S.cfg $D/gen.cfg "$S" "$PARTIES" "$BOUND" <<'PY'
+import sys,re
+src,dst,name,parties,bound=sys.argv[1:6]
+cfg=open(src).read()
+cfg=cfg[:cfg.index('VIEW')] if 'VIEW' in cfg else cfg[:cfg.index('INVARIANTS')]
+cfg=cfg.replace('SPECIFICATION Spec','SPECIFICATION GenSpec')
+cfg=re.sub(r'Parties = \d+','Parties = '+parties,cfg)
+cfg+=f'  Name = "{name}"\n  Setup <- Setup_{name}\n  Bound = {bound}\nINVARIANTS\n  EmitAll\n'
+open(dst,'w').write(cfg)
+PY
+cd $V/spec && timeout 1500 java -Xmx8g -Xss512m -Djava.io.tmpdir=$D -cp /opt/veriftools/tla/tla2tools.jar:/opt/veriftools/tla/CommunityModules-deps.jar tlc2.TLC -noGenerateSpecTE -deadlock -workers 8 -metadir $D/md -config $D/gen.cfg KernelGen.tla > $D/out.txt 2>&1
 if grep -q "^Error" $D/out.txt; then grep -B2 -A8 "^Error" $D/out.txt | head -30 >&2; exit 2; fi
-KEEP=$KEEP python3 - $D/out.txt >> "$OUT" <<'PY'
-import sys,re,json,os
-hdr=None; scheds=[]; seen=set()
+MAX=$MAX SEED=$SEED python3 - $D/out.txt >> "$OUT" <<'PY'
+import sys,re,json,os,random
+hdr=None; classes={}; total=0
 for l in open(sys.argv[1]):
     l=l.strip()
     m=re.match(r'<<"KERNELHDR", (".*")>>',l)
     if m and hdr is None: hdr=json.loads(json.loads(m.group(1)))
     m=re.match(r'<<"KERNELGEN", (".*")>>',l)
-    if m:
-        h=json.loads(json.loads(m.group(1)))
-        key=json.dumps(h)
-        if key not in seen: seen.add(key); scheds.append(h)
-def grams(h):
-    t=[s['e']+':'+str(s.get('c',s.get('t',''))) for s in h]
-    return {tuple(t[i:i+3]) for i in range(len(t)-2)}
-keep=int(os.environ['KEEP']); chosen=[]; cov=set(); pool=[(h,grams(h)) for h in scheds]
-while pool and len(chosen)<keep:
-    best=max(range(len(pool)), key=lambda i: len(pool[i][1]-cov))
-    h,g=pool.pop(best); chosen.append(h); cov|=g
-hdr['schedules']=chosen
+    if not m: continue
+    h=json.loads(json.loads(m.group(1))); total+=1
+    now=None; commits=[]; ticks={}
+    for s in h:
+        e=s['e']
+        if e=='advance': now=s['t']
+        elif e=='commit': commits.append(s['c'])
+        elif e=='send': commits.append('send:'+s['c']+':'+','.join(s['outcomes']))
+        elif e in ('start','resume','sweep'): ticks.setdefault(s['c'],[]).append(now)
+    key=json.dumps([commits,sorted(ticks.items())])
+    if key not in classes or len(h)<len(classes[key]): classes[key]=h
+keys=sorted(classes)
+mx=int(os.environ['MAX'])
+if mx and len(keys)>mx:
+    random.Random(int(os.environ['SEED'])).shuffle(keys); keys=keys[:mx]
+hdr['schedules']=[classes[k] for k in keys]
+hdr['behaviours']=total; hdr['classes']=len(classes)
 print(json.dumps(hdr))
+sys.stderr.write(f"kgen: {hdr['name']}: {total} behaviours, {len(classes)} classes, {len(keys)} kept\n")
 PY
 rm -rf $D
